@@ -243,6 +243,9 @@ ScanFwd(lst, i) == IF \E j \in i..Len(lst) : IsM(lst[j]) \/ IsE(lst[j])
 \* in `do` / `doCache` the budget is tested before redirectOrNew, so an exhausted budget has no side effect
 Exceeds(r) == opt.maxMoved > 0 /\ (IF BugMaxOffByOne THEN r > opt.maxMoved + 1 ELSE r > opt.maxMoved)
 
+\* not a CONSTANT (the configurations need not name it): MC_cluster_neg_txloss.cfg overrides it with TRUE
+BugTxResendAfterLoss == FALSE
+
 RECURSIVE DoRes(_, _, _, _, _)
 DoRes(k, lst, rps, i, acc) ==
     IF i > Len(lst) THEN acc ELSE
@@ -268,7 +271,10 @@ DoRes(k, lst, rps, i, acc) ==
             mi2 == IF scan THEN ScanBack(lst, i) ELSE acc1.mi
             ei2 == IF scan THEN ScanFwd(lst, i) ELSE acc1.ei
             acc2 == [acc1 EXCEPT !.kn = rn.kn, !.gn = rn.gn, !.wm = rn.wm, !.ro = rn.ro, !.mi = mi2, !.ei = ei2]
-            txFound == scan /\ mi2 >= 1 /\ ei2 <= Len(lst) /\ IsM(lst[mi2]) /\ IsE(lst[ei2]) /\ rps[mi2].rep = "ok"
+            \* a block is sent again as a whole only when the server REFUSED one of its queued members (MOVED / ASK / a retryable
+            \* error reply: EXEC then discards the block); after a reply lost to a connection failure EXEC may have run, so the
+            \* block is not repeated (fix bbafe77 in /repo; BugTxResendAfterLoss = doresultfn as it was before)
+            txFound == scan /\ (rp.rep # "neterr" \/ BugTxResendAfterLoss) /\ mi2 >= 1 /\ ei2 <= Len(lst) /\ IsM(lst[mi2]) /\ IsE(lst[ei2]) /\ rps[mi2].rep = "ok"
         IN  IF txFound
             THEN DoRes(k, lst, rps, i + 1, [acc2 EXCEPT !.rd = TRUE,
                           !.nx = AddTo(@, nc, mode = "ask", SubSeq(lst, IF BugTxNoMulti THEN mi2 + 1 ELSE mi2, ei2))])
@@ -502,6 +508,8 @@ TxResentWhole ==
     Active /\ HasInit /\ (\A k \in DOMAIN run : run[k].pp = {}) => \A i \in Mem : \A j \in BlockOf(i) :
         /\ Sends(i) = Sends(j)
         /\ \A x \in 1..Sends(i) : hist[i][x].n = hist[j][x].n /\ hist[i][x].g = hist[j][x].g /\ hist[i][x].ask = hist[j][x].ask
+        \* and never again after a send of it whose reply was lost with the connection (the server may have run EXEC)
+        /\ \A x \in 1..(Sends(j) - 1) : hist[j][x].rep # "neterr"
 
 \* C21 ------------------------------------------------------------------------------------------------
 \* DoMultiStream is a one-node batch: it may go to a replica only when SendToReplicas answers true for every command of it,
